@@ -819,6 +819,11 @@ func master() int {
 	}
 	b, _ := json.MarshalIndent(ev, "", " ")
 	evp := filepath.Join(*fVerif, "evidence", *fProp+".json")
+	if d := os.Getenv("VERIF_EVIDENCE_DIR"); d != "" {
+		// evaluations of scratch trees (seeded changes, own mutants) must not
+		// overwrite the evidence of /repo
+		evp = filepath.Join(d, *fProp+".json")
+	}
 	_ = os.MkdirAll(filepath.Dir(evp), 0o755)
 	if err := os.WriteFile(evp, append(b, '\n'), 0o644); err != nil {
 		fmt.Println("INFRA: cannot write evidence:", err)
